@@ -7,6 +7,7 @@ import (
 	"flag"
 	"fmt"
 	"os"
+	"os/exec"
 	"path/filepath"
 	"runtime"
 	"sort"
@@ -249,9 +250,14 @@ func cmdCheck(args []string) int {
 				run.Known++
 				continue
 			}
-			path := writeReplay(run, name, map[string]interface{}{"obligation": name, "reason": r.Undecided,
-				"note": "the function left the verified subset or its contract no longer applies; obligations that were discharged on the unchanged tree cannot be generated"})
-			fmt.Printf("VIOLATION property=%s replay=%s no-failing-input-found\n", id, path)
+			uinfo := map[string]interface{}{"obligation": name, "reason": r.Undecided,
+				"note": "the function left the verified subset or its contract no longer applies; obligations that were discharged on the unchanged tree cannot be generated"}
+			ending := " no-failing-input-found"
+			if tryReplay(p, run, &Obligation{Name: name, Func: r.Key}, uinfo) {
+				ending = ""
+			}
+			path := writeReplay(run, name, uinfo)
+			fmt.Printf("VIOLATION property=%s replay=%s%s\n", id, path, ending)
 			run.Viol++
 			continue
 		}
@@ -283,10 +289,7 @@ func cmdCheck(args []string) int {
 			run.Viol++
 			ending := ""
 			info := map[string]interface{}{"obligation": o.Name, "kind": o.Kind, "position": o.Pos, "status": o.Status, "solver": o.Solver, "solver_output": trunc(o.Output, 4000), "smt_file": o.File}
-			replayed := false
-			if o.Status == "refuted" {
-				replayed = tryReplay(p, run, o, info)
-			}
+			replayed := tryReplay(p, run, o, info)
 			if !replayed {
 				ending = " no-failing-input-found"
 			}
@@ -301,14 +304,18 @@ func cmdCheck(args []string) int {
 		fmt.Println(l)
 	}
 	writeEvidence(run, cfg, p)
+	if run.Viol > 0 {
+		// a violated obligation can make later code unreachable; that is reported with the violation
+		for _, b := range run.Broken {
+			fmt.Println("NOTE (consequence of the violations above):", b)
+		}
+		return 1
+	}
 	if len(run.Broken) > 0 {
 		for _, b := range run.Broken {
 			fmt.Println("CHECK-BROKEN:", b)
 		}
 		return 2
-	}
-	if run.Viol > 0 {
-		return 1
 	}
 	np := 0
 	for _, o := range run.Obls {
@@ -356,9 +363,80 @@ func writeReplay(run *CheckRun, name string, info map[string]interface{}) string
 	return path
 }
 
-// tryReplay: model-to-test replay (see replay.go); returns true when the failure reproduced on the real code.
+// tryReplay: after an obligation failed, a bounded witness search for the property (an in-package
+// test under /verif/replay_tests, injected with `go test -overlay`, never written into /repo) is run
+// once per check run against the real code; the failing inputs it prints are attached to the
+// violations of functions in the call tree of the entry point the input was fed to. The SMT model of
+// the obligation itself is not turned into an input (strings and heaps are abstract in the
+// encoding), so a violation without such a witness keeps the suffix no-failing-input-found.
+type witnessSet struct {
+	ran   bool
+	lines []string
+	trees map[string]map[string]bool
+	cmd   string
+}
+
+var witnesses = &witnessSet{trees: map[string]map[string]bool{}}
+
 func tryReplay(p *Program, run *CheckRun, o *Obligation, info map[string]interface{}) bool {
-	return false
+	test := filepath.Join(verifDir, "replay_tests", strings.ToLower(run.ID)+"_replay_test.go")
+	if _, err := os.Stat(test); err != nil {
+		return false
+	}
+	w := witnesses
+	if !w.ran {
+		w.ran = true
+		ov := filepath.Join(verifDir, "work", "replay-overlay.json")
+		os.MkdirAll(filepath.Dir(ov), 0o755)
+		os.WriteFile(ov, []byte(fmt.Sprintf(`{"Replace":{"%s/zz_vp_replay_test.go":"%s"}}`, repoDir, test)), 0o644)
+		name := "TestVPReplay" + run.ID
+		cmd := exec.Command("go", "test", "-overlay", ov, "-vet=off", "-count=1", "-timeout", "600s", "-run", "^"+name+"$", ".")
+		cmd.Dir = repoDir
+		cmd.Env = append(os.Environ(), "GOFLAGS=-mod=mod", "GOPROXY=off", "GOSUMDB=off", "GOTOOLCHAIN=local")
+		out, _ := cmd.CombinedOutput()
+		w.cmd = "cd /repo && go test -overlay <{Replace: zz_vp_replay_test.go -> " + test + "}> -vet=off -count=1 -run ^" + name + "$ ."
+		for _, l := range strings.Split(string(out), "\n") {
+			if strings.HasPrefix(l, "WITNESS: ") {
+				w.lines = append(w.lines, strings.TrimPrefix(l, "WITNESS: "))
+			}
+		}
+		os.Remove(ov)
+		run.Extra["witness_search"] = map[string]interface{}{"test": test, "command": w.cmd, "failing_inputs_found": len(w.lines)}
+	}
+	if len(w.lines) == 0 || p == nil {
+		return false
+	}
+	var mine []string
+	for _, l := range w.lines {
+		entry := strings.Fields(l)[0]
+		if strings.HasPrefix(entry, "WriteTo") {
+			entry = "Subtitles." + entry
+		}
+		if entry == "OpenFile" {
+			entry = "Open"
+		}
+		tree, ok := w.trees[entry]
+		if !ok {
+			tree = map[string]bool{}
+			for _, k := range callTree(p, []string{entry}) {
+				tree[k] = true
+			}
+			if entry == "Open" {
+				tree["OpenFile"] = true
+			}
+			w.trees[entry] = tree
+		}
+		if tree[o.Func] {
+			mine = append(mine, l)
+		}
+	}
+	if len(mine) == 0 {
+		return false
+	}
+	info["failing_inputs"] = mine
+	info["replay_command"] = w.cmd
+	info["replay_note"] = "found by the bounded witness search of this property on the real code; the inputs were fed to an entry point whose call tree contains the function of the failed obligation"
+	return true
 }
 
 func writeEvidence(run *CheckRun, cfg PropertyCfg, p *Program) {
@@ -419,8 +497,16 @@ func writeEvidence(run *CheckRun, cfg PropertyCfg, p *Program) {
 		assumptions = append(assumptions, a)
 	}
 	var ns []string
+	nAuto := 0
 	for n := range notes {
+		if strings.HasPrefix(n, "auto frame invariant proved inductive") {
+			nAuto++ // proved, not assumed: reported as a count
+			continue
+		}
 		ns = append(ns, "abstraction: "+n)
+	}
+	if nAuto > 0 {
+		ns = append(ns, fmt.Sprintf("abstraction: %d automatic loop invariants (Houdini candidates: frames, non-nil, bounds, freshness) were proved inductive during generation and used; none is assumed", nAuto))
 	}
 	sort.Strings(ns)
 	assumptions = append(assumptions, ns...)
